@@ -23,6 +23,12 @@ def slug(name):
 def build():
     if 'ok' in _built:
         return _built['ok']
+    from common import REPO
+    if os.path.realpath(REPO) != '/repo':
+        # the replay crate has a path dependency on /repo: it cannot replay against another tree
+        _built['ok'] = False
+        _built['err'] = 'replay disabled: VERIF_REPO is not /repo'
+        return False
     lock = os.path.join(REPLAY_CRATE, 'Cargo.lock')
     rc, out, err, _ = run(['cargo', 'build', '--offline', '--quiet'], cwd=REPLAY_CRATE, timeout=600)
     _built['ok'] = (rc == 0)
